@@ -23,7 +23,7 @@ from parsers import *
 LEVEL = 'other'
 EXPLANATION = __doc__
 ASSUMPTIONS = ['String::push/push_str/truncate and str::trim_end behave as documented']
-FLOORS = {'W.width': 5, 'O.once': 2, 'C.constants': 5, 'F.full': 2, 'P.width-source': 3, 'S.splitter': 3}
+FLOORS = {'W.width': 5, 'O.once': 2, 'C.constants': 5, 'F.full': 2, 'P.width-source': 3, 'S.splitter': 3, 'K.cursor': 2, 'K.skip-pairing': 1}
 
 def run(ctx):
     cfgs = ['none', 'dull'] if ctx.tier == 'quick' else ['none', 'dull', 'bright', 'all']
@@ -33,6 +33,9 @@ def run(ctx):
         ctx.guard(console, ctx, cfg, fs)
         ctx.guard(width_source, ctx, cfg, fs)
         ctx.guard(splitter, ctx, cfg, fs)
+        import docwalk
+        ctx.guard(docwalk.cursor_advance, ctx, cfg, fs, 'K.cursor', r'render_console$|Doc::first_line$')
+        ctx.guard(docwalk.block_pairing, ctx, cfg, fs, 'K.skip-pairing', r'impl buffer::Doc>::render_console$', [('skip', r'buffer::Skip::push$', r'buffer::Skip::pop$')])
 
 def res_local(b):
     for c in b.calls():
